@@ -98,23 +98,39 @@ def hook(rd, e, st, ctx):
                     M2[{'x': 0, 'y': 1, 'z': 2, 'w': 3}[l['m']], 0] = val
                     _save(rd, lv, st, sp.ImmutableMatrix(M2))
                     return [(val, st)]
-        # block store  M.block<r,c>(i,j) = sub
-        if l.get('k') == 'MCall' and l.get('m') == 'block' and len(l.get('args', [])) in (2, 4):
+        # block store  M.block<r,c>(i,j) = sub   (also the corner / rows / cols views)
+        if l.get('k') == 'MCall' and l.get('m') in REGION_METHODS:
             base = strip_casts(l['obj'])
             lv = rd.lvalue(base, st, ctx)
-            bd = block_dims(l)
-            ij = [const_value(a) for a in l['args'][:2]]
-            if lv and lv[0] in ('field', 'local', 'localmember') and bd is not None and None not in ij and isinstance(val, sp.MatrixBase) and dims_of(base['t']['s']):
+            shape = dims_of(base['t']['s'])
+            rg = region(l, shape) if shape else None
+            if lv and lv[0] in ('field', 'local', 'localmember') and rg is not None and isinstance(val, sp.MatrixBase):
                 M = _load(rd, lv, st, base, ctx)
                 if M is not None:
                     M2 = sp.Matrix(M)
-                    i0, j0 = int(ij[0]), int(ij[1])
+                    i0, j0, r_, c_ = rg
+                    V = sp.Matrix(val)
+                    if V.shape != (r_, c_):
+                        if V.shape == (c_, r_) and 1 in V.shape:
+                            V = V.T              # Eigen transposes a vector assigned to a vector view of the other orientation
+                        else:
+                            raise sym.Unsupported('a %dx%d value is stored into a %dx%d view at %s' % (V.shape[0], V.shape[1], r_, c_, l.get('loc')))
                     if e['op'] == '+=':
-                        M2[i0:i0 + bd[0], j0:j0 + bd[1]] = M2[i0:i0 + bd[0], j0:j0 + bd[1]] + sp.Matrix(val)
-                    elif e['op'] == '/=':
-                        pass
+                        M2[i0:i0 + r_, j0:j0 + c_] = M2[i0:i0 + r_, j0:j0 + c_] + V
+                    elif e['op'] == '-=':
+                        M2[i0:i0 + r_, j0:j0 + c_] = M2[i0:i0 + r_, j0:j0 + c_] - V
+                    elif e['op'] == '=':
+                        M2[i0:i0 + r_, j0:j0 + c_] = V
                     else:
-                        M2[i0:i0 + bd[0], j0:j0 + bd[1]] = sp.Matrix(val)
+                        raise sym.Unsupported('compound store %s into a matrix view at %s' % (e['op'], l.get('loc')))
+                    _save(rd, lv, st, sp.ImmutableMatrix(M2))
+                    return [(val, st)]
+            if lv and lv[0] in ('field', 'local', 'localmember') and rg is not None and e['op'] in ('*=', '/=') and isinstance(val, sp.Basic) and not isinstance(val, sp.MatrixBase):
+                M = _load(rd, lv, st, base, ctx)
+                if M is not None:
+                    M2 = sp.Matrix(M)
+                    i0, j0, r_, c_ = rg
+                    M2[i0:i0 + r_, j0:j0 + c_] = M2[i0:i0 + r_, j0:j0 + c_] * (val if e['op'] == '*=' else 1 / val)
                     _save(rd, lv, st, sp.ImmutableMatrix(M2))
                     return [(val, st)]
         # column/row store  M.col(k) = vec
@@ -167,17 +183,17 @@ def hook(rd, e, st, ctx):
             for ax, n in (('UnitX', 0), ('UnitY', 1), ('UnitZ', 2)):
                 if fq.endswith('::' + ax):
                     return [(sp.ImmutableMatrix(d[0], 1, lambda i, j: 1 if i == n else 0), st)]
-    if k == 'MCall' and not e.get('inrepo') and e.get('m') == 'block' and len(e.get('args', [])) in (2, 4):
-        bd = block_dims(e)
-        ij = [const_value(a) for a in e['args'][:2]]
-        if bd is not None and None not in ij:
-            out = []
-            for (ov, s2) in rd.ev(e['obj'], st, ctx):
-                if not isinstance(ov, sp.MatrixBase):
-                    return NotImplemented
-                i0, j0 = int(ij[0]), int(ij[1])
-                out.append((sp.ImmutableMatrix(ov[i0:i0 + bd[0], j0:j0 + bd[1]]), s2))
-            return out
+    if k == 'MCall' and not e.get('inrepo') and e.get('m') in REGION_METHODS:
+        out = []
+        for (ov, s2) in rd.ev(e['obj'], st, ctx):
+            if not isinstance(ov, sp.MatrixBase):
+                return NotImplemented
+            rg = region(e, ov.shape)
+            if rg is None:
+                return NotImplemented
+            i0, j0, r_, c_ = rg
+            out.append((sp.ImmutableMatrix(ov[i0:i0 + r_, j0:j0 + c_]), s2))
+        return out
     if k == 'MCall' and not e.get('inrepo') and e.get('m') in ('segment', 'head', 'tail'):
         # fixed-size vector blocks: v.segment<N>(i), v.head<N>(), v.tail<N>() (size in the VectorBlock type) and v.segment(i, n), v.tail(n)
         mm = re.search(r'VectorBlock<.*, (-?\d+)>\s*$', e['t']['s'])
@@ -239,6 +255,42 @@ def hook(rd, e, st, ctx):
                     return NotImplemented
             return out
     return NotImplemented
+
+
+REGION_METHODS = ('block', 'topLeftCorner', 'topRightCorner', 'bottomLeftCorner', 'bottomRightCorner', 'topRows', 'bottomRows', 'leftCols', 'rightCols')
+
+
+def region(e, shape):
+    """(i0, j0, rows, cols) of the view M.block / M.xxxCorner / M.topRows ... on a matrix of the given shape, sizes from the call's arguments or
+    from the fixed-size Block type; None when not constant or out of range."""
+    name = e.get('m')
+    args = [const_value(a) for a in e.get('args', [])]
+    if None in args:
+        return None
+    args = [int(a) for a in args]
+    rows, cols = shape
+    bd = block_dims(e)
+    if name == 'block':
+        if len(args) == 4:
+            rg = (args[0], args[1], args[2], args[3])
+        elif len(args) == 2 and bd is not None:
+            rg = (args[0], args[1], bd[0], bd[1])
+        else:
+            return None
+    elif name.endswith('Corner'):
+        d = (args[0], args[1]) if len(args) == 2 else bd if not args else None
+        if d is None:
+            return None
+        rg = (0 if name.startswith('top') else rows - d[0], 0 if 'Left' in name else cols - d[1], d[0], d[1])
+    else:
+        n_ = args[0] if len(args) == 1 else (bd[0] if name.endswith('Rows') else bd[1]) if (not args and bd is not None) else None
+        if n_ is None:
+            return None
+        rg = {'topRows': (0, 0, n_, cols), 'bottomRows': (rows - n_, 0, n_, cols), 'leftCols': (0, 0, rows, n_), 'rightCols': (0, cols - n_, rows, n_)}[name]
+    i0, j0, r_, c_ = rg
+    if i0 < 0 or j0 < 0 or r_ < 0 or c_ < 0 or i0 + r_ > rows or j0 + c_ > cols:
+        return None
+    return rg
 
 
 def block_dims(e):
